@@ -101,7 +101,17 @@ func (w *World) genOpts(stream string, q *ecdsaReq) {
 	case 2:
 		q.opts, q.optsDesc, q.hashSize = crypto.SHA512, "crypto.SHA512", 64
 	default:
+		// the options object is the caller's: two times out of three it is
+		// one that earlier calls of this history already used, with its
+		// fields rewritten for this call (what an options value said on an
+		// earlier call must not matter)
 		o := &secec.ECDSAOptions{}
+		if len(w.optsPool) > 0 && w.t.Chance(stream, "opts.reuse", 2, 3) {
+			o = w.optsPool[w.t.Choose(stream, "opts.which", len(w.optsPool))]
+			w.r.Fault("caller_reuses_and_rewrites_options_object")
+		} else if len(w.optsPool) < 3 {
+			w.optsPool = append(w.optsPool, o)
+		}
 		switch w.t.Choose(stream, "opts.hash", 5) {
 		case 0, 1:
 			o.Hash, q.hashSize = crypto.Hash(0), 32
@@ -534,7 +544,9 @@ func (w *World) checkSigEvent(ev *sigEvent) {
 		}
 		for _, en := range encs {
 			for _, rm := range []bool{false, true} {
-				o := &secec.ECDSAOptions{Hash: h, Encoding: en.e, RejectMalleable: rm}
+				// one caller-owned options object, rewritten for every call
+				o := &w.verifyOpts
+				o.Hash, o.Encoding, o.RejectMalleable, o.SelfVerify = h, en.e, rm, false
 				if !pub.Verify(ev.digest, en.sig, o) {
 					w.r.Violate("C08", "lib-verify-rejects", fmt.Sprintf("Verify:enc=%d:rejmal=%v", en.e, rm), step, "%s: Verify(enc=%d, RejectMalleable=%v) rejects the signer's own signature %x", ev.sigDesc, en.e, rm, en.sig)
 				}
